@@ -102,7 +102,7 @@ def check_degrees(prog: Program, src: Source, rep: Report) -> None:
     rep.unit("concrete_potentials", len(potentials))
     for c in sorted(potentials, key=lambda x: x.name):
         modkey = c.file.split("/")[-1][:-3]
-        interp = DegreeInterp(prog, {"_lib_derivative": cdeg.get(modkey, 0), "_lib_displacement": 0, "lib.derivative": cdeg.get(modkey, 0)})
+        interp = DegreeInterp(prog, {"_lib_derivative": cdeg.get(modkey, 0), "_lib_displacement": 0, "lib.derivative": cdeg.get(modkey, 0), "lib.displacement": 0})
         r = prog.resolve_method(c, "derivative")
         svd = prog.resolve_method(c, "standard_velocity_derivative")
         stub = r is not None and any(isinstance(n, ast.Raise) and "NotImplementedError" in norm(n.exc or ast.Constant(value=""))
@@ -160,6 +160,23 @@ def _eval_perm(fn: ast.FunctionDef, module_assigns: Dict[str, ast.AST], d: int):
             return tuple(out)
         if isinstance(e, ast.Subscript):
             return ev(e.value)[ev(e.slice)]
+        if isinstance(e, ast.Call) and norm(e.func) == "range" and 1 <= len(e.args) <= 3 and not e.keywords:
+            a = [ev(x) for x in e.args]
+            if all(isinstance(x, int) for x in a) and len(range(*a)) <= 16:
+                return tuple(range(*a))
+            raise ValueError(norm(e))
+        if isinstance(e, ast.BinOp) and isinstance(e.op, (ast.Add, ast.Sub, ast.Mult, ast.Mod, ast.FloorDiv)):
+            l, r = ev(e.left), ev(e.right)
+            if isinstance(l, int) and isinstance(r, int) and not isinstance(l, bool) and not isinstance(r, bool):
+                if isinstance(e.op, ast.Add):
+                    return l + r
+                if isinstance(e.op, ast.Sub):
+                    return l - r
+                if isinstance(e.op, ast.Mult):
+                    return l * r
+                if r != 0:
+                    return l % r if isinstance(e.op, ast.Mod) else l // r
+            raise ValueError(norm(e))
         if isinstance(e, ast.Call) and norm(e.func) in ("itemgetter", "operator.itemgetter"):
             idx = []
             for x in e.args:
@@ -301,15 +318,125 @@ def check_zero_sum(prog: Program, rep: Report) -> None:
         rep.ob("R3.4-zero-sum", not total.terms and len(rets[0].value.elts) == len(seps) + 1, Loc(c.file, rets[0].lineno, loc.qual), rets[0].value,
                f"the per-unit derivatives of a multi-body potential must sum to zero (translation invariance); the returned tuple "
                f"sums to {total.terms or 0}")
-        # the two independent components use the cosine-derivative with respect to their own separation
-        der = c.methods.get("derivative")
+        # every component of the time derivative is the corresponding space derivative times the same speed: the degree interpreter
+        # of R3.1 gives degree 1 in the speed for each of the len(seps) + 1 returned components, however the scaling is written
+        der = prog.resolve_method(c, "derivative")
         if der is not None:
-            ok = any(isinstance(r, ast.Return) and isinstance(r.value, ast.Call) and norm(r.value.func) == "tuple" for r in ast.walk(der)) \
-                and "* speed" in ast.unparse(der)
-            rep.ob("R3.4-all-components-scaled", ok, Loc(c.file, der.lineno, f"{c.name}.derivative"), "tuple(d * speed for d in ...)",
-                   "every component must be scaled by the same speed")
+            v = DegreeInterp(prog).method(c, "derivative", {})
+            comps = v.elems if v.elems is not None else []
+            ok = len(comps) == len(seps) + 1 and all(x.deg != INHOM and x.deg[0] == Fraction(1) for x in comps)
+            rep.ob("R3.4-all-components-scaled", ok, Loc(der[0].file, der[1].lineno, f"{c.name}.derivative"),
+                   f"{c.name}.derivative: {len(comps)} component(s), degree in the speed {[fmt(x.deg) for x in comps]}",
+                   "every component must be scaled by the same speed (degree 1 each), one component per unit")
     rep.unit("multi_body_potentials", n)
     rep.expect_min("R3.4-zero-sum", 1)
+
+
+def check_separation_order(prog: Program, rep: Report) -> None:
+    """
+    R3.6: a multi-body potential returns one derivative per unit, the handler indexes this tuple with the index of the unit in its
+    in-state and builds the separation arguments from the index pairs of the `separations` option.  Which tuple position belongs to
+    which unit is derived by homogeneity: the energy depends on the separations only through angles (degree 0 in each separation), so
+    the derivative with respect to the head of separation m has degree -1 in separation m and 0 in the others; the shared tail unit
+    gets minus the sum (not homogeneous).  Every shipped `separations` option must list (tail position, head position of m) per
+    separation, in the reference -> target orientation of separation_vector.
+    """
+    from ..inifront import Obj, load_all
+    order: Dict[str, Tuple[int, List[int]]] = {}
+    for c in prog.subclasses("Potential"):
+        r0 = prog.resolve_method(c, "standard_velocity_derivative")
+        if r0 is None:
+            continue
+        fn = r0[1]
+        seps = [p for p in param_names(fn) if "separation" in p]
+        if not 2 <= len(seps) <= 3 or c.name in order:
+            continue
+        args = {p: Val(tuple(Fraction(1 if i == m else 0) for i in range(3))) for m, p in enumerate(seps)}
+        for p in param_names(fn):
+            if p not in args and p != "self":
+                args[p] = Val(ZERO)
+        r = DegreeInterp(prog).method(c, "standard_velocity_derivative", args)
+        loc = Loc(c.file, fn.lineno, f"{c.name}.standard_velocity_derivative")
+        elems = r.elems or []
+        heads: List[Optional[int]] = []
+        for m in range(len(seps)):
+            want = tuple(Fraction(-1 if i == m else 0) for i in range(3))
+            pos = [k for k, e in enumerate(elems) if e.deg == want]
+            heads.append(pos[0] if len(pos) == 1 else None)
+        tails = [k for k, e in enumerate(elems) if e.deg == INHOM]
+        ok = len(elems) == len(seps) + 1 and all(h is not None for h in heads) and len(tails) == 1
+        rep.ob("R3.6-component-degrees", ok if elems else None, loc, f"{c.name}: degrees in ({', '.join(seps)}) per returned component: "
+               f"{[fmt(e.deg) if e.deg != INHOM else 'mixed' for e in elems]}",
+               "exactly one returned component per separation must have degree -1 in that separation and 0 in the others (the derivative with "
+               "respect to the unit at its head), and exactly one must be their negative sum (the shared tail unit)")
+        if ok:
+            order[c.name] = (tails[0], [h for h in heads if h is not None])
+    # orientation of separation_vector(first, second): second - first
+    orient_ok: Optional[bool] = None
+    for c in prog.classes:
+        fn = c.methods.get("separation_vector")
+        if fn is None or all(isinstance(x, (ast.Raise, ast.Expr)) for x in fn.body):
+            continue
+        ps = [p for p in param_names(fn) if p != "self"]
+        subs = [b for b in ast.walk(fn) if isinstance(b, ast.BinOp) and isinstance(b.op, ast.Sub) and isinstance(b.left, ast.Subscript)
+                and isinstance(b.right, ast.Subscript)]
+        good = len(ps) == 2 and len(subs) >= 1 and all(norm(b.left.value) == ps[1] and norm(b.right.value) == ps[0] for b in subs)
+        orient_ok = good if orient_ok is None else (orient_ok and good)
+        rep.ob("R3.6-separation-orientation", good, Loc(c.file, fn.lineno, f"{c.name}.separation_vector"), subs[0] if subs else "separation",
+               "separation_vector(reference, target) must be target - reference (separation = target minus active)")
+    # handler side: separation_vector(positions[A], positions[B]) for (A, B) taken pairwise from the option
+    pair_of: Dict[str, Tuple[int, int]] = {}
+    for c in prog.classes:
+        fn = c.methods.get("_get_separations")
+        if fn is None:
+            continue
+        for comp in ast.walk(fn):
+            if isinstance(comp, (ast.ListComp, ast.GeneratorExp)) and len(comp.generators) == 1 and isinstance(comp.generators[0].target, ast.Tuple) \
+                    and isinstance(comp.elt, ast.Call) and norm(comp.elt.func).endswith("separation_vector") and len(comp.elt.args) == 2:
+                tnames = [norm(t) for t in comp.generators[0].target.elts]
+                a = [norm(x.slice) if isinstance(x, ast.Subscript) else None for x in comp.elt.args]
+                if len(tnames) == 2 and a[0] in tnames and a[1] in tnames and a[0] != a[1]:
+                    pair_of[c.name] = (tnames.index(a[0]), tnames.index(a[1]))      # (position of the tail, position of the head) in a pair
+    n = 0
+    for cfg in load_all(prog):
+        for o in cfg.walk():
+            sv = o.get("separations")
+            pot = o.get("potential")
+            if not isinstance(sv, list) or not isinstance(pot, Obj):
+                continue
+            loc = Loc(cfg.file, 0, f"[{o.section}]")
+            hc = next((k for k in pair_of if prog.is_subclass(o.cls, k)), None)
+            if hc is None or pot.cls.name not in order or not orient_ok or not all(isinstance(x, int) for x in sv):
+                rep.ob("R3.6-separations-match-tuple-order", None, loc, f"separations = {sv}", "handler / potential conventions not derived")
+                continue
+            tail, heads = order[pot.cls.name]
+            tp, hp = pair_of[hc]
+            pairs = [sv[i:i + 2] for i in range(0, len(sv), 2)]
+            ok = len(pairs) == len(heads) and all(len(pr) == 2 and pr[tp] == tail and pr[hp] == heads[m] for m, pr in enumerate(pairs))
+            n += 1
+            rep.ob("R3.6-separations-match-tuple-order", ok, loc, f"separations = {', '.join(map(str, sv))}",
+                   f"{pot.cls.name} returns the derivative of the shared tail unit at tuple position {tail} and of the head of separation m at "
+                   f"positions {heads}; the handler indexes the tuple with the in-state index of the unit, so the option must be "
+                   f"{', '.join(f'{tail}, {h}' if (tp, hp) == (0, 1) else f'{h}, {tail}' for h in heads)}: otherwise the rate used for an "
+                   f"active unit is the derivative with respect to another unit")
+    rep.unit("separations_options", n)
+
+
+def check_c_parity(src: Source, rep: Report) -> None:
+    """
+    R3.7: the C x-derivative is odd in the x component of the separation and even in the two others (mirror symmetry of the
+    lattice sum) -- parity abstract interpretation (jfsa/parity.py).
+    """
+    from ..parity import parity_of
+    for rel in (MIC, IPC):
+        unit = CUnit(src, rel)
+        ok, got, notes, nsym = parity_of(unit, "derivative", ("O", "E", "E"))
+        params = unit.params("derivative")[-3:]
+        rep.ob("R3.7-c-derivative-parity", ok, Loc(rel, unit.functions["derivative"].line, "derivative"),
+               f"derivative: parity under the reflections of ({', '.join(params)}) is {got}; {nsym} symmetric lattice sum(s)",
+               f"the derivative along x must be odd under {params[0]} -> -{params[0]} and even under the reflections of the other two components; "
+               + "; ".join(notes))
+    rep.expect_min("R3.7-c-derivative-parity", 2)
 
 
 def check_velocity_analysis(prog: Program, rep: Report) -> None:
@@ -411,6 +538,10 @@ def analyse(src: Source) -> List[Report]:
     check_dimensions(prog, src, rep)
     check_permutation(prog, rep)
     check_zero_sum(prog, rep)
+    check_separation_order(prog, rep)
+    check_c_parity(src, rep)
+    rep.expect_min("R3.6-separations-match-tuple-order", 5)
+    rep.expect_min("R3.6-component-degrees", 1)
     check_velocity_analysis(prog, rep)
     return [rep]
 
@@ -459,7 +590,23 @@ MUTANTS += [
     Edit("hard sphere: contact time without the square root", P + "hard_sphere_potential.py",
          "return ((velocity_dot_separation - sqrt(square_root_term)) / velocity_squared", "return ((velocity_dot_separation - square_root_term) / velocity_squared", "R3.2"),
 ]
+MUTANTS += [
+    Edit("Fourier sine from the cosine (loses the sign)", MIC, "double delta_sin_x = sin(potential->two_pi_over_length * sx);",
+         "double delta_sin_x = sqrt(1.0 - delta_cos_x * delta_cos_x);", "R3.7"),
+    Edit("Fourier term with the cosine of x", MIC, "potential->fourier_array[i][j][k] * sin_x * cos_y * cos_z;",
+         "potential->fourier_array[i][j][k] * cos_x * cos_y * cos_z;", "R3.7"),
+    Edit("real-space sum over a half range", MIC, "for (i = -cutoff_x; i < cutoff_x + 1; i++) {", "for (i = 0; i < cutoff_x + 1; i++) {", "R3.7"),
+    Edit("real-space term with |x|", MIC, "derivative += vector_x * (potential->two_alpha_over_length_root_pi", "derivative += fabs(vector_x) * (potential->two_alpha_over_length_root_pi", "R3.7"),
+    Edit("bounding potential: y component in the numerator", IPC, "return prefactor_product * sx / pow(", "return prefactor_product * sy / pow(", "R3.7"),
+    Edit("water bending: hydrogens swapped in the separations option", "jellyfysh/config_files/2018_JCP_149_064113/water/single_molecule.ini",
+         "separations = 1, 0, 1, 2", "separations = 1, 2, 1, 0", "R3.6"),
+    Edit("bending: tuple order reversed against the separations", P + "bending_potential.py",
+         "return (d_potential_by_d_separation_one, - d_potential_by_d_separation_one - d_potential_by_d_separation_two,\n                d_potential_by_d_separation_two)",
+         "return (d_potential_by_d_separation_two, - d_potential_by_d_separation_one - d_potential_by_d_separation_two,\n                d_potential_by_d_separation_one)", "R3.6"),
+]
 TWINS = [
+    Edit("C: symmetric loop with <=", MIC, "for (i = -cutoff_x; i < cutoff_x + 1; i++) {", "for (i = -cutoff_x; i <= cutoff_x; i++) {"),
+    Edit("C: Fourier term reordered", MIC, "potential->fourier_array[i][j][k] * sin_x * cos_y * cos_z;", "cos_z * cos_y * sin_x * potential->fourier_array[i][j][k];"),
     Edit("inverse power: exponent through a local", P + "inverse_power_potential.py",
          "        return (self._power * separation[direction] / vectors.norm(separation) ** self._power_plus_two",
          "        exponent = self._power_plus_two\n        return (self._power * separation[direction] / vectors.norm(separation) ** exponent"),
